@@ -60,3 +60,5 @@
 (declare-fun extRefl (Int) Any)
 (declare-fun patchUnwrapS (Any) Any)
 (declare-fun foUnwrapS (Any) Any)
+; a protoreflect.Value that holds something (the zero Value does not; Message.Set panics on it)
+(declare-fun pbValOK (X_protoreflect_Value) Bool)
